@@ -489,8 +489,7 @@ def gen_cases(ctx, ref):
             return hx(dumps(e["c"][2]))
         return hx(dumps(e["c"][1]))
 
-    n_stub = ctx.scale(150, 1500)
-    n_raw = ctx.scale(120, 1200)
+    n_stub, n_raw = 900, 750          # per round; run() does ctx.scale(1, 28) rounds
     for ai, a in enumerate(apis):
         entries = [("m", i, m) for i, m in enumerate(a["methods"])] + [("s", j, s) for j, s in enumerate(a["subs"])]
         names_of = {}
@@ -513,10 +512,10 @@ def gen_cases(ctx, ref):
                 if not params:
                     wparams = None
                 elif pk == "array":
-                    wparams = list(args)
+                    wparams = {"arr": list(args)}
                 else:
-                    wparams = ("obj", [(p_name(q), v) for q, v in zip(params, args)])
-                wire = (wire_name, wparams)
+                    wparams = {"obj": [[p_name(q), v] for q, v in zip(params, args)]}
+                wire = [wire_name, wparams]
                 if hid == BOUNDARY_NOTE:
                     e = {"h": None, "a": None, "wire": wire, "c": ("notif",)}
                     mk("stub", ai, "m%d" % idx, hx(dumps(args, rng)), "ok", "-", "-", "boundary-notification", e, {})
@@ -748,13 +747,15 @@ def canon(r):
     return (r["w"], r["h"], json.dumps(r["a"], sort_keys=True), json.dumps(c, sort_keys=True))
 
 
-def check(case, r):
-    """the direct oracle: list of (key, detail) violations of the property in the implementation's result r"""
-    e = case.expect
+def check(expect, r):
+    """the direct oracle: list of (key, detail) violations of the property in the implementation's result r.
+    `expect` is what the Python reference demands for the case (JSON-friendly, also stored in replay files)"""
+    e = json.loads(json.dumps(expect))
     bad = []
     if r is None:
         return [("unreadable-result", "result line not understood")]
-    if "neg" in e and e["neg"] == "optopt":
+    rc = list(r["c"])
+    if e.get("neg") == "optopt":
         # labelled negative: Option<Option<u8>>; Some(None) cannot be told from None on the wire
         sent = e["sent"]
         exp_dbg = "None" if sent in ("none", "some-none") else "Some(Some(%d))" % sent
@@ -762,8 +763,8 @@ def check(case, r):
             bad.append(("negative-example-changed", "optopt(%r): handler saw %r" % (sent, r["a"])))
         return bad
     if e.get("neg") == "collide":
-        if r["h"] is not None or r["c"][:2] != ("err", -32602):
-            bad.append(("negative-example-changed", "collide(a_b, aB) through the stub no longer fails: %r" % (r["c"],)))
+        if r["h"] is not None or rc[:2] != ["err", -32602]:
+            bad.append(("negative-example-changed", "collide(a_b, aB) through the stub no longer fails: %r" % (rc,)))
         return bad
     # the frame the stub sent
     if e["wire"] is not None:
@@ -780,17 +781,21 @@ def check(case, r):
                     gv = parse_pairs(got)
                 except Exception:
                     gv = "unparsable"
-                want = wp if isinstance(wp, list) else ("obj", [(k, v) for k, v in wp[1]])
-                gvp = [plain(x) for x in gv] if isinstance(gv, list) else ("obj", [(k, plain(v)) for k, v in gv[1]]) if isinstance(gv, tuple) else gv
-                if gvp != want or type(gvp) != type(want):
-                    bad.append(("wire-params", "stub sent params %r, arguments are %r" % (got, want)))
+                if isinstance(gv, list):
+                    gvp = {"arr": [plain(x) for x in gv]}
+                elif isinstance(gv, tuple):
+                    gvp = {"obj": [[k, plain(v)] for k, v in gv[1]]}
+                else:
+                    gvp = gv
+                if not (isinstance(gvp, dict) and list(gvp) == list(wp) and same(list(gvp.values())[0], list(wp.values())[0])):
+                    bad.append(("wire-params", "stub sent params %r, arguments are %r" % (got, wp)))
     # the handler and what it received
     if r["h"] != e["h"]:
         bad.append(("handler", "handler %r ran, expected %r" % (r["h"], e["h"])))
     elif e["h"] is not None and not same(r["a"], e["a"]):
         bad.append(("arguments", "handler received %r, sent %r" % (r["a"], e["a"])))
     # what the client got
-    ec, rc = e["c"], r["c"]
+    ec = e["c"]
     if ec[0] == "err" and ec[3] == "*":
         if rc[:3] != ec[:3]:
             bad.append(("library-error", "expected %r, client got %r" % (ec[:3], rc)))
@@ -856,34 +861,45 @@ def run(ctx):
         if r != want_h:
             ctx.fail("diff", "heck-transcriptions-differ", {"name": n}, {"model": r, "python": want_h})
     ctx.count("heck-names", len(names))
-    # (1) calls
-    cases = gen_cases(ctx, ref)
-    lines = [c.line() for c in cases]
-    ri = vlib.run_lines([impl], lines, shards=8, min_shard=400)
-    rm = vlib.run_lines([model], lines, min_shard=400)
-    for c, a, b in zip(cases, ri, rm):
-        ctx.count(c.tag)
-        ra, rb = parse_line(a), parse_line(b)
-        desc = {"line": c.line(), "tag": c.tag, "api": ref.apis[c.api]["trait"], "target": c.target if c.mode == "stub" else c.info.get("name"),
-                "params": c.info.get("params")}
-        viol = check(c, ra)
-        for key, detail in viol:
-            ctx.fail("oracle", key, desc, {"detail": detail, "impl": a})
-        if c.expect.get("neg") != "optopt":
-            if canon(ra) != canon(rb) or ra is None:
-                ctx.fail("diff", "macroapi-model-differs:" + c.tag, desc, {"impl": a, "model": b})
-        ctx.record(desc, a, nontrivial=bool(ra and ra["h"]))
-        if a.startswith(("PANIC", "CRASH", "?")):
-            ctx.fail("oracle", "harness-crash", desc, a)
+    # (1) calls, in rounds of the quick size (bounds the memory of the thorough tier)
+    for _ in range(ctx.scale(1, 28)):
+        cases = gen_cases(ctx, ref)
+        lines = [c.line() for c in cases]
+        ri = vlib.run_lines([impl], lines, shards=8, min_shard=400)
+        rm = vlib.run_lines([model], lines, min_shard=400)
+        for c, a, b in zip(cases, ri, rm):
+            ctx.count(c.tag)
+            ra, rb = parse_line(a), parse_line(b)
+            desc = {"line": c.line(), "tag": c.tag, "api": ref.apis[c.api]["trait"], "target": c.target if c.mode == "stub" else c.info.get("name"),
+                    "params": c.info.get("params")}
+            viol = check(c.expect, ra)
+            if viol:
+                desc["expect"] = c.expect
+            for key, detail in viol:
+                ctx.fail("oracle", key, desc, {"detail": detail, "impl": a})
+            if c.expect.get("neg") != "optopt":
+                if canon(ra) != canon(rb) or ra is None:
+                    ctx.fail("diff", "macroapi-model-differs:" + c.tag, desc, {"impl": a, "model": b})
+            ctx.record(desc, a, nontrivial=bool(ra and ra["h"]))
+            if a.startswith(("PANIC", "CRASH", "?")):
+                ctx.fail("oracle", "harness-crash", desc, a)
+        if len(ctx.failures) > 2000:
+            break
 
 
 def replay(payload):
     case = payload["case"]
     print(json.dumps(payload, indent=1)[:3000])
     if isinstance(case, dict) and "line" in case:
+        res = {}
         for name, cmd in (("impl", vlib.rust_bin("macroapi")), ("model", vlib.model_bin("macroapi"))):
             rc, out = vlib.sh([cmd], input=case["line"] + "\n")
-            print(name, "->", out.strip())
-            r = parse_line(out.strip().split("\n")[-1])
-            print("   ", r)
+            last = out.strip().split("\n")[-1] if out.strip() else ""
+            res[name] = parse_line(last)
+            print(name, "->", last)
+            print("   ", res[name])
+        print("model and implementation agree:", canon(res["impl"]) == canon(res["model"]) and res["impl"] is not None)
+        if "expect" in case:
+            viol = check(case["expect"], res["impl"])
+            print("direct oracle on the implementation's result:", "holds" if not viol else "VIOLATED " + "; ".join("%s: %s" % v for v in viol))
     return 0
